@@ -53,7 +53,7 @@ pub const NTYPES: usize = 8;
 /// dynamic ids used by the ordinary generators (the "standard" 32 slots)
 pub const NDYN: usize = 4;
 /// dynamic ids that exist at all (workloads that need > 64 distinct resources use them)
-pub const NDYN_EXT: usize = 16;
+pub const NDYN_EXT: usize = 40;
 /// number of standard slots
 pub const NSTD: usize = NTYPES * NDYN;
 /// capacity of arrays indexed by `Slot.0`
@@ -61,12 +61,12 @@ pub const NSLOTS: usize = NTYPES * NDYN_EXT;
 
 /// slot = (type index, dynamic id)
 #[derive(Clone, Copy, PartialEq, Eq, Hash, PartialOrd, Ord, Debug)]
-pub struct Slot(pub u8);
+pub struct Slot(pub u16);
 
 impl Slot {
     pub fn new(ty: usize, dy: usize) -> Slot {
         debug_assert!(ty < NTYPES && dy < NDYN_EXT);
-        Slot((ty * NDYN_EXT + dy) as u8)
+        Slot((ty * NDYN_EXT + dy) as u16)
     }
     pub fn ty(self) -> usize {
         self.0 as usize / NDYN_EXT
@@ -81,7 +81,7 @@ impl Slot {
     pub fn all() -> impl Iterator<Item = Slot> {
         (0..NTYPES).flat_map(|t| (0..NDYN).map(move |d| Slot::new(t, d)))
     }
-    /// all 128 slots (8 types x 16 dynamic ids)
+    /// all 320 slots (8 types x 40 dynamic ids)
     pub fn all_ext() -> impl Iterator<Item = Slot> {
         (0..NTYPES).flat_map(|t| (0..NDYN_EXT).map(move |d| Slot::new(t, d)))
     }
@@ -219,6 +219,17 @@ pub fn full_world() -> World {
     w
 }
 
+/// The standard world plus the given (non-standard) slots.
+pub fn full_world_with(extra: impl Iterator<Item = Slot>) -> World {
+    let mut w = full_world();
+    for s in extra {
+        if !s.is_std() && !w.has_value_raw(s.rid()) {
+            insert_slot(&mut w, s, 1000 + s.0 as u64);
+        }
+    }
+    w
+}
+
 #[derive(Clone, Copy, PartialEq, Eq, Debug)]
 pub enum Probe {
     Absent,
@@ -259,8 +270,10 @@ pub fn slot_value(world: &World, s: Slot) -> Option<(u64, u64, u64, u64)> {
 /// Order-sensitive digest of the complete world (all 32 slots; absent slots contribute a marker).
 pub fn world_digest(world: &World) -> u64 {
     let mut h = 0x5eed_u64;
-    for s in Slot::all() {
+    for s in Slot::all_ext() {
         match slot_value(world, s) {
+            // (a non-standard slot that does not exist is not part of the digest)
+            None if !s.is_std() => {}
             None => h = mix(h, 0xdead_0000 + s.0 as u64),
             Some((a, b, hist, pad)) => {
                 h = mix(h, a);
@@ -275,5 +288,5 @@ pub fn world_digest(world: &World) -> u64 {
 
 /// Per-slot (a,b,hist) table for evidence / diffs.
 pub fn world_table(world: &World) -> Vec<(Slot, Option<(u64, u64, u64, u64)>)> {
-    Slot::all().map(|s| (s, slot_value(world, s))).collect()
+    Slot::all_ext().map(|s| (s, slot_value(world, s))).filter(|(s, v)| s.is_std() || v.is_some()).collect()
 }
